@@ -36,6 +36,7 @@ type FuncContract struct {
 	AssignsAll bool
 	HasAssigns bool
 	Loops      map[int]*LoopContract
+	InlLoops   map[string]*LoopContract // "Callee.N": extra clauses for loops of inlined callees
 	Trusted    bool
 	Pure       bool
 	Inline     bool
@@ -80,8 +81,11 @@ type GhostField struct {
 
 type GlobalInv struct {
 	Pkg  string
+	Name string
+	Tags []string
 	Expr Expr
 	Src  string
+	Pos  string
 }
 
 type Contracts struct {
@@ -163,11 +167,23 @@ func (c *Contracts) LoadContractFile(file, pkgPath string) error {
 			w2, r2 := splitWord(rest)
 			c.Consts[w2] = strings.TrimSpace(strings.TrimPrefix(strings.TrimSpace(r2), "="))
 		case "global":
-			ex, err := ParseExpr(rest)
+			// global NAME (TAGS) EXPR
+			gname, r2 := splitWord(rest)
+			var tags []string
+			r2 = strings.TrimSpace(r2)
+			if strings.HasPrefix(r2, "(") {
+				j := strings.Index(r2, ")")
+				if j < 0 {
+					return fail(fmt.Errorf("global: missing ')'"))
+				}
+				tags = strings.Fields(r2[1:j])
+				r2 = r2[j+1:]
+			}
+			ex, err := ParseExpr(r2)
 			if err != nil {
 				return fail(err)
 			}
-			c.Globals = append(c.Globals, GlobalInv{Pkg: pkgPath, Expr: ex, Src: rest})
+			c.Globals = append(c.Globals, GlobalInv{Pkg: pkgPath, Name: gname, Tags: tags, Expr: ex, Src: strings.TrimSpace(r2), Pos: pos})
 		case "func":
 			name, params, results, err := parseFuncHeader(rest)
 			if err != nil {
@@ -310,15 +326,26 @@ func parseClause(fc *FuncContract, word, rest, pos string) error {
 	case "loop":
 		// loop N: invariant E | loop N: decreases E, E
 		w2, r2 := splitWord(rest)
-		n, err := strconv.Atoi(strings.TrimSuffix(w2, ":"))
-		if err != nil {
-			return fmt.Errorf("loop ordinal: %v", err)
-		}
+		w2 = strings.TrimSuffix(w2, ":")
 		w3, r3 := splitWord(r2)
-		lc := fc.Loops[n]
-		if lc == nil {
-			lc = &LoopContract{}
-			fc.Loops[n] = lc
+		var lc *LoopContract
+		if n, err := strconv.Atoi(w2); err == nil {
+			lc = fc.Loops[n]
+			if lc == nil {
+				lc = &LoopContract{}
+				fc.Loops[n] = lc
+			}
+		} else if strings.Contains(w2, ".") {
+			if fc.InlLoops == nil {
+				fc.InlLoops = map[string]*LoopContract{}
+			}
+			lc = fc.InlLoops[w2]
+			if lc == nil {
+				lc = &LoopContract{}
+				fc.InlLoops[w2] = lc
+			}
+		} else {
+			return fmt.Errorf("loop ordinal: %q", w2)
 		}
 		switch w3 {
 		case "invariant":
